@@ -197,6 +197,11 @@ func (ts *TermStore) Or(as ...*Term) *Term {
 	if len(out) == 1 {
 		return out[0]
 	}
+	for _, a := range out {
+		if a.Op == "not" && seen[a.Args[0].id] {
+			return ts.True()
+		}
+	}
 	return ts.mk("or", SBool, out...)
 }
 
@@ -204,11 +209,18 @@ func (ts *TermStore) Implies(a, b *Term) *Term {
 	if a.IsTrue() {
 		return b
 	}
-	if a.IsFalse() || b.IsTrue() {
+	if a.IsFalse() || b.IsTrue() || a == b {
 		return ts.True()
 	}
 	if b.IsFalse() {
 		return ts.Not(a)
+	}
+	if a.Op == "and" {
+		for _, x := range a.Args {
+			if x == b {
+				return ts.True()
+			}
+		}
 	}
 	return ts.mk("=>", SBool, a, b)
 }
@@ -331,6 +343,9 @@ func (ts *TermStore) Mul(a, b *Term) *Term {
 	if a.Int != nil && a.Int.Cmp(big.NewInt(1)) == 0 {
 		return b
 	}
+	if (a.Int != nil && a.Int.Sign() == 0) || (b.Int != nil && b.Int.Sign() == 0) {
+		return ts.Int(0)
+	}
 	if b.Int != nil && b.Int.Cmp(big.NewInt(1)) == 0 {
 		return a
 	}
@@ -359,6 +374,10 @@ func (ts *TermStore) Select(arr, idx *Term) *Term {
 			continue
 		}
 		break
+	}
+	if a.Op == "ite" {
+		// push the read under the conditional so that no array-sorted ite reaches the solver's matcher
+		return ts.Ite(a.Args[0], ts.Select(a.Args[1], idx), ts.Select(a.Args[2], idx))
 	}
 	return ts.mk("select", a.Sort.Elem(), a, idx)
 }
@@ -428,6 +447,9 @@ func (p *Printer) Print(t *Term) string {
 		return t.Op
 	}
 	var sb strings.Builder
+	if t.Op == "!pat" {
+		return p.printPat(t)
+	}
 	if t.Op == "forall" || t.Op == "exists" {
 		// bound variables first, body last; never share sub-terms across the binder
 		sb.WriteString("(" + t.Op + " (")
@@ -459,7 +481,27 @@ func (p *Printer) Print(t *Term) string {
 
 // printNoShare prints a term inside a binder: sub-terms already named (closed) may be reused,
 // but no new definitions are introduced for terms that mention bound variables.
+func (p *Printer) printPat(t *Term) string {
+	var sb strings.Builder
+	sb.WriteString("(! " + p.printNoShare(t.Args[0]))
+	for _, g := range t.Args[1:] {
+		sb.WriteString(" :pattern (")
+		for i, x := range g.Args {
+			if i > 0 {
+				sb.WriteByte(' ')
+			}
+			sb.WriteString(p.printNoShare(x))
+		}
+		sb.WriteString(")")
+	}
+	sb.WriteString(")")
+	return sb.String()
+}
+
 func (p *Printer) printNoShare(t *Term) string {
+	if t.Op == "!pat" {
+		return p.printPat(t)
+	}
 	if !p.hasBound(t) {
 		return p.Print(t)
 	}
@@ -577,6 +619,15 @@ func (ts *TermStore) Exists(bvs []*Term, body *Term) *Term {
 	}
 	args := append(append([]*Term{}, bvs...), body)
 	return ts.mk("exists", SBool, args...)
+}
+
+// WithPatterns annotates a quantifier body with instantiation patterns (each pattern is a list of terms).
+func (ts *TermStore) WithPatterns(body *Term, pats ...[]*Term) *Term {
+	args := []*Term{body}
+	for _, p := range pats {
+		args = append(args, ts.mk("patgroup", SBool, p...))
+	}
+	return ts.mk("!pat", SBool, args...)
 }
 
 // BoundVar creates a bound variable symbol (not declared as a free constant).
